@@ -228,6 +228,7 @@ func mayAuth(c *Conn) bool {
 //@   props C05:callsite,post,pre@call C06:bounds,assert-type,div0,panic-unreachable,pre@call
 //@   requires c != nil && c.server != nil
 //@   callsite Session.Login requires mayAuth(c)
+//@   callsite SessionSASL.Authenticate requires mayAuth(c)
 //@   callsite Session.Select requires authed(c)
 //@   callsite Session.Create requires authed(c)
 //@   callsite Session.Delete requires authed(c)
